@@ -14,6 +14,7 @@ for id in $ids; do
   if ! git -C /repo apply $PWD/$d/patch.diff 2>/dev/null; then echo "$id patch does not apply to /repo HEAD" | tee $d/applied.txt; continue; fi
   out=$(./vcheck $fire --tier quick 2>&1); rc=$?
   git -C /repo checkout -- .
+  if [ -n "$(git -C /repo status --porcelain)" ]; then git -C /repo clean -fdq; fi   # files the patch created
   {
     echo "git -C /repo apply seeded/$id/patch.diff ; ./vcheck $fire --tier quick ; git -C /repo checkout -- ."
     echo "exit=$rc"
